@@ -61,7 +61,7 @@ def complete(result, case: fam.Case) -> bool:
     files = result.files
     if len(files) != EXPECTED_FILES:
         return False
-    m = fam.MODELS[case.model_i]
+    m = fam.MODELS_ALL[case.model_i]
     pre = '_'.join(list(case.prefix or ()) + ['Dzn'])
     names = [f.filename for f in files]
     want = [f'{m.comp}AdvShell.hh', f'{m.comp}AdvShell.cc'] + \
@@ -137,7 +137,7 @@ def _bad_model(m: fam.Model, mode: str):
 
 def build_fault(case: fam.Case, base_cfg: PortsCfg, fault: int) -> Optional[Callable[[], Configuration]]:
     """Return a thunk producing the faulty Configuration, or None when the fault does not apply."""
-    m = fam.MODELS[case.model_i]
+    m = fam.MODELS_ALL[case.model_i]
     mc = fam.mc_cfg(m)
     provs, reqs = _provs(m), _reqs(m)
     mk = lambda pc, **kw: (lambda: fam.make_configuration(case, pc() if callable(pc) else pc, **kw))  # noqa: E731
